@@ -82,26 +82,87 @@ def regen(ck):
     ck.extra["regeneration_rule"] = "compared after gofmt (the checked-in files are gofmt-formatted generator output; the raw output differs only in the header comment's trailing blank and final newline)"
 
 
+JOB_BASE = 1000000
+
+
+def long_vector_jobs(ck, astp, ast):
+    """Length classes of long vectors, from the Go element sizes the driver reports (reflect.Type.Size of the slice element):
+    just below / above 65536/(size+1) and 65536/size — where a decoder that trusts a capped pre-allocation instead of the
+    32-bit wire count would cut the vector — plus 2000 / 14000 / 70000 for small elements. Every vector field of the schema
+    gets the first length above the cap on all its routes (codec, request decoder, client call incl. answers); the other
+    classes go through the codec route (quick: one of them per field, chosen by the seed; thorough: all)."""
+    vp = os.path.join(ck.work, "vecsizes.ndjson")
+    ck.run_vh(["drive", "C10", "-part", "vecsizes", "-out", vp, astp])
+    fields = [e for e in vlib.read_ndjson(vp) if e.get("k") == "VecSize"]
+    want = sum(1 for sec in ("types", "functions") for d in ast[sec] for f in d["fields"] if isinstance(f["ty"], dict))
+    if len(fields) != want or not fields:
+        raise Infra("driver reported %d vector fields, the schema has %d" % (len(fields), want))
+    jobs = []
+    def add(ty, op, f, n, why):
+        jobs.append({"ty": ty, "op": op, "decl": f["decl"], "field": f["field"], "n": n, "why": why})
+    for i, f in enumerate(fields):
+        s = f["size"]
+        l1, l2 = 65536 // (s + 1), 65536 // s
+        if f["fn"]:
+            codec = (f["decl"], "EncBare")
+            routes = [codec, (f["decl"], "Fn"), (f["decl"], "Call")]
+        else:
+            multi = sum(1 for d in ast["types"] if d["result"] == f["result"]) > 1
+            codec = (f["result"] if multi else f["decl"], "Enc")
+            routes = [codec] + [(fn["ctor"], "Call") for fn in ast["functions"] if fn["result"] == f["result"]]
+        for ty, op in routes:
+            add(ty, op, f, l1 + 1, "65536/(size+1)+1")
+        extra = [(l1, "65536/(size+1)"), (l1 - 1, "65536/(size+1)-1"), (l2, "65536/size"), (l2 + 1, "65536/size+1")]
+        if s <= 4:
+            extra += [(14000, "fixed"), (70000, "fixed")]
+        elif s <= 32:
+            extra += [(2000, "fixed")]
+        if not ck.thorough:
+            extra = [extra[(ck.seed + i) % len(extra)]] + ([(70000, "fixed")] if s <= 4 else [])
+        for n, why in extra:
+            add(codec[0], codec[1], f, n, why)
+        if f["fn"] and s <= 32:              # the request decoder with ~2000 hashes / 14000 ints
+            add(f["decl"], "Fn", f, 2000 if s > 4 else 14000, "fixed")
+    ck.extra["long_vectors"] = {"vector_fields": [{"decl": f["decl"], "field": f["field"], "go": f["go"], "elem_size": f["size"],
+                                                    "cap": 65536 // (f["size"] + 1)} for f in fields], "jobs": len(jobs),
+                                "max_len": max(j["n"] for j in jobs)}
+    return jobs
+
+
 def gen_vectors(ck, astp, ast):
+    jobs = long_vector_jobs(ck, astp, ast)
+    jp = os.path.join(ck.work, "longjobs.json")
+    json.dump([{k: j[k] for k in ("ty", "op", "decl", "field", "n")} for j in jobs], open(jp, "w"))
     nt = len(ast["types"]) + 3 * len(ast["functions"])
     rounds = 1000 if ck.thorough else 40
     total = nt * rounds
     nsh = SHARDS if ck.thorough else 8
     per = (total + nsh - 1) // nsh
+    njs = 8
     def one(i):
+        if i >= nsh:                 # long-vector jobs: vectors JOB_BASE .. JOB_BASE + len(jobs) - 1, in njs interleaved shards
+            mine = list(range(i - nsh, len(jobs), njs))
+            out = []
+            for j in mine:           # one state each (From = To): a job is a few hundred KB
+                out += run_gen(i, JOB_BASE + j, JOB_BASE + j, "job%03d" % j)
+            return out
         lo, hi = i * per, min(total, (i + 1) * per) - 1
         if lo > hi:
             return []
+        return run_gen(i, lo, hi, "gen%02d" % i)
+    def run_gen(i, lo, hi, name):
         cfg = "CONSTANTS\n  Seed = %d\n  From = %d\n  To = %d\nSPECIFICATION Spec\nINVARIANT Emit\nCHECK_DEADLOCK FALSE\n" % (ck.seed, lo, hi)
-        p = os.path.join(ck.work, "TlSem_Gen_%02d.cfg" % i)
+        p = os.path.join(ck.work, "TlSem_Gen_%s.cfg" % name)
         open(p, "w").write(cfg)
-        res = ck.tlc_or_infra("TlSem_Gen", os.path.relpath(p, vlib.SPEC), files={"schema.json": astp}, name="gen%02d" % i, timeout=1500, heap_gb=3)
+        res = ck.tlc_or_infra("TlSem_Gen", os.path.relpath(p, vlib.SPEC), files={"schema.json": astp, "longjobs.json": jp}, name=name, timeout=1500, heap_gb=3)
         v = res.vecs()
         if len(v) != hi - lo + 1:
             raise Infra("TlSem_Gen shard %d emitted %d of %d vectors" % (i, len(v), hi - lo + 1))
         return v
-    vecs = [v for part in vlib.parallel(one, range(nsh), n=8) for v in part]
+    vecs = [v for part in vlib.parallel(one, range(nsh + njs), n=8) for v in part]
     vecs.sort(key=lambda v: v["vec"])
+    if sum(1 for v in vecs if v["vec"] >= JOB_BASE) != len(jobs):
+        raise Infra("long-vector jobs incomplete")
     return vecs
 
 
@@ -127,7 +188,8 @@ def judge(ck, traces, what):
         for rj in rejected:
             e = rj["event"]
             small = {k: (v if len(json.dumps(v)) < 4000 else json.dumps(v)[:4000] + "...") for k, v in e.items() if k != "schema"}
-            ck.report(key_of(e, rj["segment"][0].get("note", "")), "%s: recorded event is not what TlSem defines: segment at line %d accepted %d of %d events; rejected %s" % (
+            long = e.get("vec", 0) >= JOB_BASE or rj["segment"][0].get("note", "").startswith("long-vector")
+            ck.report(key_of(e, rj["segment"][0].get("note", "")) + (":long-vector" if long else ""), "%s: recorded event is not what TlSem defines: segment at line %d accepted %d of %d events; rejected %s" % (
                 what, rj["seg"], rj["accepted"], rj["length"], json.dumps(small)[:1500]),
                 {"kind": "trace", "event": e, "segment_note": rj["segment"][0].get("note", "")})
 
@@ -209,7 +271,9 @@ def run(ck):
         # one key per direction and failure class: Dec = the bindings parsing the specification's bytes, Enc = the bindings
         # serialising the specification's value; sub = refused (error) | panic | differs | unread | request-decoder
         for f in r_.get("fails") or [{"stage": "Dec", "sub": "differs", "detail": ""}]:
-            ck.report("C10:replay:%s:%s:%s" % (f["stage"], v["ty"], f["sub"]),
+            # a long vector that is cut shows up as unread bytes, an error or a different value depending on what follows
+            # it: one key per direction and type for that class
+            ck.report("C10:replay:%s:%s:%s" % (f["stage"], v["ty"], "long-vector" if v.get("cls") == "long-vector" else f["sub"]),
                       "bindings disagree with the specification (%s of an in-domain vector, %s, Go type %s): %s; vector %s" % (
                           "parsing the bytes" if f["stage"] == "Dec" else "serialising the value", f["sub"], f.get("go", "?"),
                           json.dumps({k: f[k] for k in f if k in ("detail", "got_v", "got_hex")})[:600], json.dumps(v)[:900]),
